@@ -241,9 +241,11 @@ Section Std.
                      match unq kb with
                      | None => Err
                      | Some ks =>
-                       (* the element is decoded into a fresh zero value, then stored *)
-                       do ev <- std_bind e x (zero e);
+                       (* the element is decoded into a fresh zero value, then stored under the converted key
+                          (decode.go converts the key after the value; an error of either ends in an error, so the
+                          order is not observable and the key is taken first here) *)
                        do kv <- std_key k ks;
+                       do ev <- std_bind e x (zero e);
                        go r (map_set acc kv ev)
                      end
                    end) l m0;
